@@ -11,8 +11,8 @@ for cap, tier in ((1, 'quick'), (2, 'quick'), (3, 'quick'), (4, 'quick'), (5, 't
         defs = {'CAP': cap}
         if pl: defs['PAYLOAD_INT'] = None
         t = tier if not (pl and cap in (1, 3)) else 'thorough'
-        for entry in ('proof_init', 'proof_emplace', 'proof_emplace_full', 'proof_remove', 'proof_clear', 'proof_access'):
-            props = ['C19'] + (['C11'] if entry != 'proof_emplace_full' else [])
+        for entry in ('proof_init', 'proof_emplace', 'proof_emplace_full', 'proof_remove', 'proof_clear', 'proof_access', 'proof_copy') + (('proof_emplace_plain',) if pl else ()):
+            props = ['C19'] + (['C11'] if entry != 'proof_emplace_full' else []) + (['C14'] if entry == 'proof_emplace_plain' else []) + (['C10'] if entry == 'proof_copy' else [])
             job(id='C19.pool.cap%d%s.%s' % (cap, '.int' if pl else '', entry[6:]), tu='tier_a/tasklist.cpp', defs=defs, entry=entry,
                 props=props, tier=t, unwind=max(cap + 2, 6), unwindset={'verif_havoc.0': 4096}, objbits=10, carriers=TL_CARRIERS,
                 case_key='TaskListT<%s,%d>' % ('int' if pl else 'void', cap))
@@ -170,8 +170,24 @@ def machine_jobs(m, kinds=(0, 1, 2), upd_kinds_quick=(0, 2, 6), upd_kinds=(0, 1,
     for d1 in range(1, m.n):
         for d2 in range(1, m.n):
             job(id='C.%s.q2.d%d.d%d' % (m.name, d1, d2), entry='step_queued2', key=[0, d1, 0, d2], props=['C01', 'C02', 'C04'], quick_for=['C02'], tier=q2_tier, carriers=[r'R_<.*>::changeTo'],
+                tags=['batch-override'] if batch_override_key(m, d1, d2) else [],
                 case_key='%s/queued pair/change %d then change %d' % (m.name, d1, d2), **base)
+def ancestors(m, s):
+    out = []
+    while s >= 0: out.append(s); s = m.parents[s]
+    return out
+def batch_override_key(m, di, dj):
+    """delimiting predicate of finding KF-C02-batch-override: the earlier request di conflicts with the later one dj at a composite
+    region g, and dj's path has at least two composite levels strictly below g (so the ancestor walk can stop before reaching g)"""
+    for a in ancestors(m, di):
+        for b in ancestors(m, dj):
+            if a > 0 and b > 0 and a != b and m.parents[a] == m.parents[b] and m.kinds[m.parents[a]] == 'C':
+                g = m.parents[a]
+                below = [x for x in ancestors(m, dj)[1:] if m.kinds[x] == 'C' and x != g and g in ancestors(m, x)]
+                return len(below) >= 2
+    return False
 def compatible(m, d1, d2):
+    if d1 != d2 and d2 in ancestors(m, d1): return False
     a = d1
     while a > 0:
         b = d2
@@ -202,6 +218,7 @@ def extra_jobs(m, tier='quick', q3=True):
             for d3 in range(1, m.n):
                 interesting = len({d1, d2, d3}) == 3 and not compatible(m, d2, d3) and compatible(m, d1, d3)
                 job(id='C.%s.q3.d%d.d%d.d%d' % (m.name, d1, d2, d3), entry='step_queued3', key=[d1, d2, d3], props=['C02', 'C01', 'C04'], quick_for=['C02'], tier=tier if interesting else 'thorough',
+                    tags=['batch-override'] if (batch_override_key(m, d2, d3) or batch_override_key(m, d1, d3) or batch_override_key(m, d1, d2)) else [],
                     carriers=[r'RegistryT<.*>::requestImmediate'], case_key='%s/queued triple/change %d, %d, %d' % (m.name, d1, d2, d3), **base)
 machine_jobs(M_RES, q2_tier='quick')
 extra_jobs(M_RES, q3=False); extra_jobs(M_NEST)        # M_RES has a queue capacity of 2 (COMPO_COUNT): three queued requests are outside C02's quantifier
@@ -215,7 +232,7 @@ def serial_jobs(m, tier='quick'):
     ncfg = m.count(0)
     for ka in range(-1, ncfg):
         for kb in range(-1, ncfg):
-            job(id='C.%s.saveload.a%s.b%s' % (m.name, ka if ka >= 0 else 'off', kb if kb >= 0 else 'off'), entry='step_save_load', key=[ka, kb], props=['C08', 'C01', 'C03', 'C11'], quick_for=['C08'], tier=tier,
+            job(id='C.%s.saveload.a%s.b%s' % (m.name, ka if ka >= 0 else 'off', kb if kb >= 0 else 'off'), entry='step_save_load', key=[ka, kb], props=['C08', 'C01', 'C03', 'C11'], quick_for=['C08'], tier=tier, assert_props=['C08'],   # stream cursor <= SERIAL_BITS is an HFSM2_ASSERT in write<W>/read<W>
                 carriers=[r'RV_<.*>::save', r'RV_<.*>::load', r'R_<.*>::load', r'C_<.*>::deepSaveActive', r'C_<.*>::deepLoadRequested', r'BitWriteStreamT<.*>::write<', r'BitReadStreamT<.*>::read<'],
                 case_key='%s/save in cfg %d, load into cfg %d (-1 = not activated)' % (m.name, ka, kb), **base)
 def history_jobs(m, kinds=(0, 1, 2, 6), tier='quick'):
@@ -225,7 +242,17 @@ def history_jobs(m, kinds=(0, 1, 2, 6), tier='quick'):
         for d in range(1, m.n):
             job(id='C.%s.history.%s.d%d' % (m.name, KIND_NAMES[k], d), entry='step_history_replay', key=[k, d], props=['C09', 'C01', 'C03'], quick_for=['C09'], tier=tier,
                 carriers=[r'R_<.*>::replayTransitions', r'R_<.*>::lastTransitionTo', r'R_<.*>::applyRequests', r'ControlT<.*>::pinLastTransition'], case_key='%s/history+replay/%s/dest=%d' % (m.name, KIND_NAMES[k], d), **base)
-serial_jobs(M_RES); serial_jobs(M_ORTHO, tier='thorough'); serial_jobs(M_NEST)
+def history_round_jobs(m, tier='quick'):
+    base = dict(tu=m.tu, defs=m.defs, unwind=m.unwind, objbits=12, timeout=900)
+    for c in range(m.count(0)):
+        for d1 in range(1, m.n):
+            for d2 in range(1, m.n):
+                for d3 in range(1, m.n):
+                    quick = c == 0 and d1 != d2 and d3 not in (d1, d2) and compatible(m, d1, d2) and m.kinds[d2] == 'L'
+                    job(id='C.%s.history2.c%d.d%d.d%d.d%d' % (m.name, c, d1, d2, d3), entry='step_history_rounds', key=[c, d1, d2, d2, d3], props=['C09', 'C01'], quick_for=['C09'], tier=tier if quick else 'thorough',
+                        carriers=[r'R_<.*>::replayTransitions', r'R_<.*>::applyRequests', r'R_<.*>::processTransitions'], case_key='%s/two approved rounds/cfg=%d/%d,%d then %d' % (m.name, c, d1, d2, d3), **base)
+history_round_jobs(M_RES)
+serial_jobs(M_RES); serial_jobs(M_ORTHO); serial_jobs(M_NEST)
 history_jobs(M_RES); history_jobs(M_NEST); history_jobs(M_ORTHO, tier='thorough')
 
 # ------------------------------------------------------------------ C10 determinism (two-run contracts)
@@ -297,3 +324,8 @@ for mode, name in ((1, 'verbose'), (2, 'interface')):
         for d in range(1, M_LOG.n):
             job(id='C.%s.logupd.c%d.d%d' % (M_LOG.name, c, d), entry='step_logger_update', key=[c, i, 0, d], props=['C16'], tier='quick' if (mode == 1 and d in (1, 4)) else 'thorough',
                 carriers=[r'R_<.*>::update'], case_key='%s/logger during update/cfg=%d/dest=%d' % (name, c, d), **base)
+
+M_UTILN = Machine('utiln', 'tier_c/m_util.cpp', [-1, 0, 0, 2, 2, 4, 4, 2, 7, 7], ['C', 'L', 'C', 'L', 'C', 'L', 'L', 'O', 'L', 'L'], defs={'VM_NESTED_UTIL': None}, unwind=22)
+for region in (2, 4):
+    job(id='C.utiln.utilize_nested.r%d' % region, tu=M_UTILN.tu, defs=M_UTILN.defs, entry='step_utilize_nested', key=[region], props=['C12', 'C01', 'C02', 'C11'], unwind=22, objbits=12, timeout=900,
+        carriers=[r'C_<.*>::deepReportUtilize', r'O_<.*>::deepReportUtilize', r'OS_<.*>::wideReportUtilize', r'C_<.*>::deepRequestUtilize'], case_key='nested utility/utilize region %d' % region)
